@@ -168,9 +168,12 @@ Definition get_field (j : Z) (x : ext) : list (list Z) := extract x (col j (x_fs
 Definition rest_of_line (j : Z) (x : ext) : list (list Z) :=
   let starts := col j (x_fs x) in extract x starts (map (fun l => l - 1) (vsub (x_ee x) starts)).
 (* SAMBufferExctractor._get_extra_field *)
+(* (since /repo 6bbd290) the tags end at the line break, or at the carriage return before it *)
+Definition extra_end (data : list Z) (e : Z) : Z :=
+  let e0 := e - 1 in e0 - (if nthZ data (Z.max (e0 - 1) 0) =? CR then 1 else 0).
 Definition sam_extra (x : ext) : list (list Z) :=
   let starts := zip_with (fun s l => last0 s + last0 l + 1) (x_fs x) (x_fl x) in
-  extract x starts (map (fun l => Z.max (l - 1) 0) (vsub (x_ee x) starts)).
+  extract x starts (zip_with (fun e st => Z.max (extra_end (x_data x) e - st) 0) (x_ee x) starts).
 
 (* buffer.get_field_range_as_text(i, i+1) per buffer class *)
 Definition field_text (f : fmt) (i : Z) (x : ext) : list (list Z) :=
@@ -229,7 +232,8 @@ Definition a_rest (j : Z) (a : arow) : list Z :=
   let sl := nth (Z.to_nat j) (a_rel a) (0, 0) in slice (fst sl) (len (a_rec a) - 1) (a_rec a).
 Definition a_extra (a : arow) : list Z :=
   let sl := last (a_rel a) (0, 0) in
-  let st := fst sl + snd sl + 1 in slice st (st + Z.max (len (a_rec a) - st - 1) 0) (a_rec a).
+  let st := fst sl + snd sl + 1 in
+  slice st (st + Z.max (extra_end (a_rec a) (len (a_rec a)) - st) 0) (a_rec a).
 Definition a_field_text (f : fmt) (i : Z) (a : arow) : list Z :=
   match f with
   | FVcf _ => if i =? 8 then a_rest 8 a else a_field i a
@@ -433,18 +437,12 @@ Definition from_sam (data : list Z) : option ext :=
       let st := split_counts counts (map (Z.add 1) (removelast dl)) in
       let en := split_counts counts (tl dl) in
       if forallb (fun c => 11 <=? c) counts then
-        (* _modify_for_carriage_return on a RaggedArray: `ends.copy()` raises AttributeError when the first
-           line ends in CR *)
-        match en with
-        | r0 :: _ =>
-            if negb (last0 r0 =? 0) && (nthZ chunk (last0 r0 - 1) =? CR) then None
-            else
-              let starts := map (firstn 11) st in
-              let ends := map (firstn 11) en in
-              Some {| x_data := chunk; x_fs := starts; x_fl := zip_with vsub ends starts;
-                      x_es := map hd0 starts; x_ee := map (fun r => last0 r + 1) en; x_contig := true |}
-        | [] => None
-        end
+        (* (since /repo 6bbd290) the entry ends are taken BEFORE the carriage-return adjustment; the adjustment is the
+           delimited one, applied to the last end of every (ragged) row *)
+        let starts := map (firstn 11) st in
+        let ends := map (firstn 11) (modify_cr_last chunk en) in
+        Some {| x_data := chunk; x_fs := starts; x_fl := zip_with vsub ends starts;
+                x_es := map hd0 starts; x_ee := map (fun r => last0 r + 1) en; x_contig := true |}
       else None
   end.
 
@@ -550,7 +548,11 @@ Definition render_rows (vr : variant) (f : fmt) (v : list arow) (sv : setv) : li
   map (render_row vr f v sv) (seq 0 (length v)).
 Definition width_gt (k : nat) (v : list arow) : Prop := Forall (fun a => (k < length (a_rel a))%nat) v.
 Definition width_ok (f : fmt) (v : list arow) : Prop :=
-  match f with FVcf n => 8 < n -> width_gt 8 v | FSam => width_gt 0 v | _ => True end.
+  match f with
+  | FVcf n => 8 < n -> width_gt 8 v
+  | FSam => width_gt 0 v /\ Forall (fun a => 2 <= len (a_rec a)) v
+  | _ => True
+  end.
 
 (* decidable versions of the well-formedness conditions (reflected in Proofs/C04.v) *)
 Definition row_ok_b (dlen : Z) (r : xrow) : bool :=
@@ -564,7 +566,7 @@ Definition inv_b (x : ext) : bool :=
 Definition width_b (f : fmt) (v : list arow) : bool :=
   match f with
   | FVcf n => negb (8 <? n) || forallb (fun a => Nat.ltb 8 (length (a_rel a))) v
-  | FSam => forallb (fun a => Nat.ltb 0 (length (a_rel a))) v
+  | FSam => forallb (fun a => Nat.ltb 0 (length (a_rel a))) v && forallb (fun a => 2 <=? len (a_rec a)) v
   | _ => true
   end.
 
